@@ -114,6 +114,12 @@ class G:
             if nm in ARRAYS:
                 self.dimf[nm] = {i: DIMF[fl["name"]] for i, fl in enumerate(a["fields"]) if fl["name"] in DIMF}
 
+    @property
+    def redispatch_blocks(self):
+        if not hasattr(self, "_redis"):
+            self._redis = set()
+        return self._redis
+
     def diverges(self, bb, seen=None):
         if bb in self._div:
             return self._div[bb]
@@ -467,6 +473,12 @@ class G:
         op is normalised to the fact that holds on the surviving edge"""
         out = []
         b = self.body
+        # `x.checked_sub(y).unwrap()` / `.expect(..)`: the call returns only when y <= x
+        for bi, t, fn in b.calls():
+            if fn and fn["name"] in ("unwrap", "expect") and t["args"] and t.get("target") is not None and (fn.get("path") or "").startswith("core::option::"):
+                e0 = strip(self.d.expr(t["args"][0]))
+                if e0[0] == "call" and e0[2] == "checked_sub" and len(e0[3]) == 2:
+                    out.append((bi, "Le", e0[3][1], e0[3][0], t["target"]))
         for bi, bl in enumerate(b.blocks):
             if bl["cleanup"]:
                 continue
@@ -555,6 +567,25 @@ class G:
                 if {px[0], py[0]} <= stores:
                     out.append((py, px))
                     continue
+            # ordering by re-dispatch: `if X < Y { return self.f(.., Y, X) }` - the same function with the two exchanged; below
+            # it Y <= X holds, and the re-dispatched call is judged by the very guards of this body
+            hops = 0
+            cur = true_succ
+            tt2 = tt
+            while tt2 and hops < 4:
+                if tt2["k"] == "call":
+                    fnr = tt2["func"].get("fn") or {}
+                    if (fnr.get("resolved") or fnr.get("path")) == b.id or fnr.get("path") == b.id:
+                        aps = [self.param_path(strip(self.d.expr(a))) for a in tt2["args"]]
+                        ok_x = isinstance(px[0], int) and isinstance(py[0], int) and px[0] != py[0] and px[0] - 1 < len(aps) and py[0] - 1 < len(aps) and aps[px[0] - 1] == py and aps[py[0] - 1] == px
+                        if ok_x:
+                            out.append((py, px))
+                            self.redispatch_blocks.add(cur)
+                    break
+                if tt2["k"] == "goto":
+                    cur = tt2["target"]; tt2 = b.blocks[cur]["term"]; hops += 1
+                else:
+                    break
             # the swap may be a few straight-line blocks away
             hops = 0
             cur = true_succ
@@ -748,7 +779,10 @@ def _check_pp(R, RA, g, gs, b, f, pp, pdesc, unit, role, depth, pnames):
         if found:
             # domination of sensitive uses
             undominated = []
+            g.ordered_pairs()
             for (ubi, span, what, rv) in g.sensitive_uses(pp):
+                if ubi in g.redispatch_blocks:
+                    continue          # handing the exchanged pair to the same function: judged by this body's own guards
                 oks_ = [x[3] for x in (founds or [found])]
                 if found[3] not in g.dom.get(ubi, set()) and ubi != found[0] and not (len(oks_) > 1 and _all_paths_pass(b, oks_, ubi)):
                     undominated.append((what, span))
@@ -762,7 +796,9 @@ def _check_pp(R, RA, g, gs, b, f, pp, pdesc, unit, role, depth, pnames):
                 for rbi, rbl in enumerate(b.blocks):
                     tt = rbl["term"]
                     if tt and tt["k"] == "return" and not rbl["cleanup"] and rbi in g.body.reachable(0):
-                        oks_ = [x[3] for x in (founds or [found])]
+                        if any(rd == rbi or rd in g.dom.get(rbi, set()) for rd in g.redispatch_blocks):
+                            continue      # the return of the re-dispatched call
+                        oks_ = [x[3] for x in (founds or [found])] + sorted(g.redispatch_blocks)      # a path through the re-dispatched call is checked by the callee = this body
                         # where the parameter is known to equal another one (`a == b`, `a.cmp(&b) == Equal`), that one's guards count
                         for (eqb, other) in g.equal_regions(pp):
                             if True:
@@ -968,6 +1004,12 @@ def r_guard(f):
                     RA.inst(b.ident, "the overflow flag of %s in %s sends every overflowing index to a panic before any return" % (fn_["name"], hb_.ident), okf)
                     if not okf:
                         RA.fail(b.ident, "idx:flag-not-decisive:%s" % fn_["name"], "%s: the overflow flag of %s(idx, ..) in %s does not by itself lead to a panic on every path (it is only tested together with another condition, or not at all): an index whose product wraps to an in-range position returns a wrong cell" % (b.ident, fn_["name"], hb_.ident), hb_.where(t_["span"]))
+            if not checked_index:
+                # an explicit bounds assertion followed by an unchecked access is decided path-wise by R-CURSOR (index
+                # conformance: an unchecked access that the path facts do not bound is a violation there)
+                for hb_, _ in scan:
+                    if any(fn_ and fn_["name"] in ("get_unchecked", "get_unchecked_mut") for _, _, fn_ in hb_.calls()):
+                        checked_index = True
             RA.inst(b.ident, "idx only enters checked arithmetic and a checked slice index", bad is None and checked_index)
             if bad:
                 RA.fail(b.ident, "idx:%s" % bad[1].replace("WithOverflow", ""), "%s multiplies the caller's index with a plain `%s`: with overflow checks off a huge index wraps to an in-range position and a wrong cell is returned instead of a panic" % (b.ident, bad[1].replace("WithOverflow", "")), b.where(bad[0]))
